@@ -15,6 +15,7 @@ import AgpTpf.Model.Cli
 import AgpTpf.Model.Outputs
 import AgpTpf.Model.CliPlan
 import AgpTpf.Model.Pretext
+import AgpTpf.Model.AsmFormat
 open Lean AgpTpf
 
 abbrev D := Except String
@@ -406,6 +407,21 @@ def hScript (j : Json) : D Json := do
   pure (Json.mkObj [("wf", Json.bool (Pretext.wfScript input s)), ("err_len", jnat (Pretext.errLen s.p s.q)),
                     ("ptx", jarr encScaffold (Pretext.ptxOf input s))])
 
+/-- one `asm-format` run (Model/AsmFormat.lean): options, input files (name, text), STDIN text → what was written, the overlap
+    reports as printed to STDERR, the exception class -/
+def hAsmFormat (j : Json) : D Json := do
+  let fmtOf (s : Option Str) : Option Fmt := match s.map String.ofList with
+    | some "AGP" => some .AGP | some "TPF" => some .TPF | some "FASTA" => some .FASTA | _ => none
+  let outOf (s : Option Str) : Option OutFmt := match s.map String.ofList with
+    | some "AGP" => some .AGP | some "TPF" => some .TPF | some "STR" => some .STR | some "REPR" => some .REPR | _ => none
+  let o : AsmFormatOpts := { inputFormat := fmtOf (← getOptS j "input_format"), outputFile := ← getOptS j "output_file",
+                             format := outOf (← getOptS j "format"), name := ← getOptS j "name", qcOverlaps := ← getB j "qc" }
+  let files ← (← getA j "files").mapM (fun v => do pure ((← getS v "name"), (← getS v "text")))
+  let stdin ← getS j "stdin"
+  let r := asmFormatText o files stdin
+  let reps := r.reports.map (fun p => match reportOverlapsText p.1 p.2 with | .ok t => jstr t | .error e => Json.str ("<" ++ e.name ++ ">"))
+  pure (Json.mkObj [("written", jstr r.written), ("reports", Json.arr reps.toArray), ("error", jopt (fun (e : Err) => Json.str e.name) r.error)])
+
 def dispatch (j : Json) : D Json := do
   let kind ← getS j "kind"
   match String.ofList kind with
@@ -436,6 +452,7 @@ def dispatch (j : Json) : D Json := do
   | "pathparse" => hPathParse j
   | "cliplan" => hCliPlan j
   | "script" => hScript j
+  | "asmformat" => hAsmFormat j
   | k => throw s!"unknown kind {k}"
 
 partial def loop (h : IO.FS.Stream) (out : IO.FS.Stream) : IO Unit := do
